@@ -750,6 +750,100 @@ def gen_meta(repo):
     return ''.join(out)
 
 
+REQUEST_PATH = [  # (file, class or None, function)
+    ('clastic/application.py', 'Application', '__call__'), ('clastic/application.py', 'Application', '_dispatch_wsgi'),
+    ('clastic/application.py', 'Application', 'dispatch'), ('clastic/application.py', None, 'default_render_error'),
+    ('clastic/application.py', 'DispatchState', '__init__'), ('clastic/application.py', 'DispatchState', 'add_route'),
+    ('clastic/application.py', 'DispatchState', 'add_exception'), ('clastic/application.py', 'DispatchState', 'update_methods'),
+    ('clastic/route.py', 'BoundRoute', 'execute'), ('clastic/route.py', 'BoundRoute', 'execute_error'),
+    ('clastic/route.py', 'BoundRoute', 'match_path'), ('clastic/route.py', 'BoundRoute', 'match_method'),
+    ('clastic/route.py', 'NullRoute', 'handle_sentinel_condition'), ('clastic/route.py', None, 'normalize_path'),
+    ('clastic/sinter.py', None, 'inject'), ('clastic/sinter.py', None, 'get_fb'),
+    ('clastic/errors.py', 'ErrorHandler', 'render_error'), ('clastic/errors.py', 'ErrorHandler', 'uncaught_to_response'),
+    ('clastic/errors.py', 'ContextualErrorHandler', 'uncaught_to_response'),
+]
+PER_REQUEST_CLASSES = ('DispatchState',)        # instances created per request: writes through self stay with the request
+PER_REQUEST_NAMES = ('request', 'dispatch_state', 'ret', 'params', '_error', 'injectables', 'kwargs', 'all_kwargs', 'error_params',
+                     'uncaught_params', 'nf_exc', 'resp', 'response', 'environ', 'base_params', 'path_params', 'exc', 'rre', 'match', 'groups')
+MUTATORS = ('append', 'extend', 'insert', 'pop', 'remove', 'clear', 'update', 'add', 'discard', 'setdefault', 'popitem', 'sort', 'reverse',
+            '__setitem__', '__delitem__')
+
+
+def gen_footprint(repo):
+    """every write (assignment target, augmented assignment, del, mutating method call, global/nonlocal declaration) of the
+    functions on the request path, classified by the root of its target"""
+    trees = {}
+    rows = []
+    for rel, cls, fname in REQUEST_PATH:
+        if rel not in trees:
+            trees[rel] = parse(repo, rel)
+        body = trees[rel].body if cls is None else find_class(trees[rel], cls).body
+        fn = find_def(body, fname)
+        where = '%s%s.%s' % (rel.split('/')[-1][:-3] + ':', cls or '', fname)
+        params = set(a.arg for a in fn.args.args + fn.args.kwonlyargs) | ({fn.args.vararg.arg} if fn.args.vararg else set()) | \
+            ({fn.args.kwarg.arg} if fn.args.kwarg else set())
+        assigned = set()
+        declared_global = set()
+        for n in ast.walk(fn):
+            if isinstance(n, (ast.Global, ast.Nonlocal)):
+                declared_global |= set(n.names)
+            if isinstance(n, ast.Name) and isinstance(n.ctx, ast.Store):
+                assigned.add(n.id)
+            if isinstance(n, (ast.For, ast.comprehension)):
+                pass
+
+        def root(e):
+            while isinstance(e, (ast.Attribute, ast.Subscript)):
+                e = e.value
+            return e.id if isinstance(e, ast.Name) else None
+
+        def classify(target, text):
+            if isinstance(target, ast.Name):
+                return 'WShared' if target.id in declared_global else 'WLocal'
+            r = root(target)
+            if r is None:
+                return 'WShared'
+            if r == 'self':
+                return 'WRequest' if cls in PER_REQUEST_CLASSES else 'WShared'
+            if r in PER_REQUEST_NAMES:
+                return 'WRequest'
+            if r in assigned and r not in declared_global and r not in ('route', 'err_handler', 'eh', 'fb', 'f'):
+                return 'WRequest'       # an object bound by this very call (a fresh dict/list/response)
+            return 'WShared'
+        for n in ast.walk(fn):
+            targets = []
+            if isinstance(n, ast.Assign):
+                targets = n.targets
+            elif isinstance(n, (ast.AugAssign, ast.AnnAssign)):
+                targets = [n.target]
+            elif isinstance(n, ast.Delete):
+                targets = n.targets
+            elif isinstance(n, (ast.Global, ast.Nonlocal)):
+                rows.append((where, 'global ' + ', '.join(n.names), 'WShared'))
+            elif isinstance(n, ast.Call) and isinstance(n.func, ast.Attribute) and n.func.attr in MUTATORS:
+                rows.append((where, ast.unparse(n.func), classify(n.func.value if not isinstance(n.func.value, ast.Name) else
+                                                                  ast.Attribute(value=n.func.value, attr='x', ctx=ast.Load()), '')))
+            elif isinstance(n, ast.Call) and isinstance(n.func, ast.Name) and n.func.id == 'next' and n.args and \
+                    isinstance(n.args[0], ast.Name) and n.args[0].id == '_REQ_ID_ITER':
+                rows.append((where, ast.unparse(n), 'WCounter'))
+            for t in targets:
+                for el in (t.elts if isinstance(t, (ast.Tuple, ast.List)) else [t]):
+                    rows.append((where, ast.unparse(el), classify(el, '')))
+    # the counter itself
+    atree = trees['clastic/application.py']
+    src = ast.unparse(module_assign(atree, '_REQ_ID_ITER'))
+    # generated code templates: the only names they bind are parameters and `context` / `resp`
+    ctree = parse(repo, 'clastic/middleware/core.py')
+    tmpl = ConstEval(ctree).get('_REQ_INNER_TMPL')
+    out = [HEADER % 'the request path of clastic', 'From Coq Require Import List String.\nImport ListNotations.\nLocal Open Scope string_scope.\n\n',
+           'Inductive wkind := WLocal | WRequest | WShared | WCounter.\n',
+           'Definition WRITES : list (string * string * wkind) :=\n  %s.\n'
+           % coq_list(['(%s, %s, %s)' % (coq_str(a), coq_str(b2), k) for a, b2, k in rows]).replace('; (', ';\n   ('),
+           'Definition REQ_ID_SOURCE : string := %s.\n' % coq_str(src),
+           'Definition REQ_INNER_TMPL_LINES : list string := %s.\n' % names_list([l.strip() for l in tmpl.strip().split('\n')])]
+    return ''.join(out)
+
+
 def gen_normpath(repo):
     from strfun import StrFun
     rel = 'clastic/route.py'
@@ -764,6 +858,7 @@ def gen_normpath(repo):
 
 
 GENERATORS = {
+    'Footprint.v': gen_footprint,
     'MetaGen.v': gen_meta,
     'FlawGen.v': gen_flaw,
     'ErrorsGen.v': gen_errors,
